@@ -350,7 +350,7 @@ def cases(rng, tier, seed):
                 flips[k] = 1.0
         out.append(Case('C07 fixsigns %d %d %s' % (N, K, flist((v * flips[:, None]).ravel())), 'ok ' + flist(v.ravel()),
                         'dpss/signs', meta=dict(meta, flips=[float(f) for f in flips])))
-        if N <= 1024:
+        if N <= 512:              # the model's autocorrelation sum is O(N^2)
             k = rng.randrange(K)
             out.append(Case('C07 conc %d %s %s' % (N, f2x(NW), flist(v[k])), 'ok ' + flist([e[k]]), 'dpss/concentration',
                             cmp=cmp_two(1e-9), meta=dict(meta, k=k)))
@@ -363,7 +363,7 @@ def cases(rng, tier, seed):
             impl = 'ok %s %s' % (flist(r2[1]), flist(r2[1]))
         out.append(Case('C07 lowbias %s' % flist(e), impl, 'dpss/low_bias', meta=dict(meta, sub='lowbias')))
         # interpolation branch (linear) against the model, from the real short tapers
-        if N >= 48 and 4 * NW < N // 2 and rng.random() < 0.5:
+        if 48 <= N <= 512 and 4 * NW < N // 2 and rng.random() < 0.5:
             M = rng.randint(max(int(4 * NW) + 1, N // 4), N - 1)
             r3 = common.call(lambda: (dpss_call(M, NW, K), dpss_call(N, NW, K, interp_from=M)))
             if isinstance(r3, str):
